@@ -337,9 +337,34 @@ class Ctx:
             self.discharged += n
             self.theorems += names
             self.axioms |= ax
+            if not self.quick:
+                self.coqchk()
         except Broken as b:
             self.obligations += 1
             self.broken.append({"what": b.what, "detail": b.detail})
+
+    def coqchk(self):
+        """thorough tier: re-check the property's compiled file (and everything it depends on) with
+        the independent checker and record the axioms it reports"""
+        import subprocess as sp
+        cmd = ["timeout", "1500", "coqchk", "-silent", "-o"] + COQFLAGS + [f"SVProp.{self.pid}"]
+        p = sp.run(cmd, capture_output=True, text=True, cwd=COQ)
+        out = p.stdout + p.stderr
+        if p.returncode != 0:
+            self.obligation(False, "coqchk failed on Properties/%s.vo" % self.pid, out[-1500:])
+            return
+        m = re.search(r"\* Axioms:(.*?)\n\s*\n\* Constants/Inductives relying on type-in-type:(.*?)\n", out, re.S)
+        axioms = []
+        if m:
+            axioms = [a.strip() for a in m.group(1).split("\n") if a.strip() and a.strip() != "<none>"]
+        bad = [a for a in axioms if not any(a.startswith(w) or w.split(".")[-1] in a for w in AXIOM_WHITELIST)
+               and not a.startswith("Coq.") and "Coquelicot" not in a]
+        self.notes.append("coqchk -o: accepted; axioms of all loaded libraries: " + (", ".join(axioms) or "none"))
+        self.obligation(True, "coqchk")
+        for key in ("type-in-type", "unsafe (co)fixpoints", "positivity is assumed"):
+            mm = re.search(re.escape(key) + r":\s*(.*?)\n", out)
+            if mm and "<none>" not in mm.group(1):
+                self.obligation(False, f"coqchk reports constants relying on {key}", mm.group(1))
 
     def obligation(self, ok: bool, what: str, detail=""):
         self.obligations += 1
@@ -388,6 +413,12 @@ class Ctx:
             status = 1
         for m in self.known_hits:
             print(m)
+        try:   # running union of the findings that reproduced (used by tools/merge_known.py --prune)
+            with open(BUILD / "known_hits.log", "a") as fh:
+                for m in self.known_hits:
+                    fh.write(m + "\n")
+        except OSError:
+            pass
         for b in self.broken:
             print(f"BROKEN-OBLIGATION: {b['what']}")
             if b.get("detail"):
